@@ -338,6 +338,10 @@ class Engine(ExecMixin, CallMixin, EvalMixin):
             if pre + name in self.p.types: return pre + name
             raise Unsupported('unknown type %s in contract' % name)
         cands.sort(key=len)
+        if '.' not in name:
+            # unqualified names are the verified module's own types first (netpoll, then its sub-packages), never a same-named stdlib type
+            own = [t for t in cands if t.startswith('github.com/cloudwego/netpoll')]
+            if own: return pre + own[0]
         return pre + cands[0]
 
     # ------------------------------------------------------------------ obligations
